@@ -27,7 +27,7 @@ import ast
 import hashlib
 import pathlib
 from .model import Func, AnalysisError
-from .terms import Recon, subst, simplify, show, atoms, walk
+from .terms import Recon, subst, simplify, show, atoms, walk, _texty
 from .norm import Normaliser
 
 SPEC_DIR = pathlib.Path(__file__).resolve().parent / "specs"
@@ -52,10 +52,11 @@ def load_specs(modname):
     return out
 
 
-def _renumber(t):
-    """line numbers out of 'after' wrappers, loop / handler markers; carried names and loop variables numbered by first
-    appearance; allocation / draw identities numbered by first appearance"""
+def _renumber(t, lvnum=None):
+    """line numbers out of 'after' wrappers, loop / handler markers; loop variables numbered by the program order of their
+    loops (lvnum), carried names and allocation / draw identities by first appearance"""
     names = {}
+    lvnum = lvnum or {}
 
     def num(kind, key):
         k = (kind, key)
@@ -70,7 +71,8 @@ def _renumber(t):
         if h == 'loopvar':
             if isinstance(x[1], str) and x[1].startswith('#'):
                 return None
-            return ('loopvar', num('v', (x[1], x[2])), x[2])
+            k = lvnum.get((x[1], x[2]))
+            return ('loopvar', f"#v{k}" if k is not None else num('w', (x[1], x[2])), x[2])
         if h == 'carried':
             if isinstance(x[1], str) and x[1].startswith('#'):
                 return None
@@ -119,19 +121,41 @@ def digest(t):
     return h
 
 
-def norm(t):
+_COMM = ('Add', 'Mult', 'BitAnd', 'BitOr')
+_FLIP = {'Lt': 'Gt', 'Gt': 'Lt', 'LtE': 'GtE', 'GtE': 'LtE', 'Eq': 'Eq', 'NotEq': 'NotEq'}
+
+
+def _resort(t):
+    """operands of commutative operators and of comparisons ordered by the digest of the *numbered* operands: the order in
+    which the source happens to write `x[i] == x[j]` cannot matter even when both sides look alike up to the loop they belong to"""
+    def rule(x):
+        h = x[0] if x else None
+        if h == 'bin' and x[1] in _COMM and not _texty(x[2]) and not _texty(x[3]):
+            if digest(x[3]) < digest(x[2]):
+                return ('bin', x[1], x[3], x[2])
+        elif h == 'cmp' and x[1] in _FLIP:
+            if digest(x[3]) < digest(x[2]):
+                return ('cmp', _FLIP[x[1]], x[3], x[2])
+        elif h == 'bool':
+            if digest(x[3]) < digest(x[2]):
+                return ('bool', x[1], x[3], x[2])
+        return None
+    return subst(t, rule)
+
+
+def norm(t, lvnum=None):
     if not isinstance(t, tuple):
         return t
-    return _renumber(simplify(t))
+    return _resort(_renumber(simplify(t), lvnum))
 
 
-def _cond_key(conds):
+def _cond_key(conds, lvnum=None):
     out = []
     for c, pol in conds:
         if isinstance(c, tuple) and c and c[0] in ('inloop',):
             continue
         out.append((c, pol))
-    return tuple(sorted(((digest(norm(c)), pol) for c, pol in atoms(out))))
+    return tuple(sorted(((digest(norm(c, lvnum)), pol) for c, pol in atoms(out))))
 
 
 class Summary:
@@ -140,6 +164,12 @@ class Summary:
         r = Recon(prog, eff, f).run()
         self.loops = 0
         self.entries = []       # (kind, condkey, data-as-term)
+        lvnum = {}
+        for ev in r.events:
+            if ev.kind == 'loop_enter':
+                for tn in ev.data[1]:
+                    lvnum.setdefault((tn, ev.data[0]), len(lvnum))
+        self.lvnum = lvnum
         for ev in r.events:
             k = ev.kind
             if k in _SKIP:
@@ -159,24 +189,26 @@ class Summary:
                 self.loops += 1
                 data = d[0] if d[0] is not None else ('const', 'while')
             elif k == 'carry':
-                data = ('tuple', (d[0], d[1]))
+                # a name that every iteration defines before using it is not loop-carried: what it held before the loop is dead
+                live = any(x is d[0] or x == d[0] for x in walk(d[1]))
+                data = ('tuple', (d[0], d[1])) if live else ('tuple', (('const', 'defined-in-body'), d[1]))
             elif k in ('return', 'raise', 'expr', 'while_test'):
                 data = d[0] if d[0] is not None else ('const', None)
             elif k == 'handler':
                 data = ('const', d[0])
             else:
                 data = ('const', None)
-            self.entries.append((k, _cond_key(ev.conds), norm(data), ev.lineno))
+            self.entries.append((k, _cond_key(ev.conds, lvnum), norm(data, lvnum), ev.lineno))
         self.calls = []         # (callee qname, condkey, call term, lineno): every call evaluated, wherever it is written
         for t, conds, node in r.calls:
-            self.calls.append((t[1], _cond_key(conds), norm(t), getattr(node, 'lineno', 0)))
+            self.calls.append((t[1], _cond_key(conds, lvnum), norm(t, lvnum), getattr(node, 'lineno', 0)))
         self.finals = {}
         for p in f.params:
             v = r.env.get(p)
             if v is not None and v != ('param', p):
                 # only mutation matters: a rebound parameter that is never returned is invisible to the caller
                 if any(x[0] in ('upd', 'out', 'havoc') for x in walk(v)) and _rooted_in_param(v, p):
-                    self.finals[p] = norm(v)
+                    self.finals[p] = norm(v, lvnum)
 
     def keys(self, arith=False):
         f = (lambda t: digest(_arith(t))) if arith else digest
